@@ -230,10 +230,14 @@ Print Assumptions C03_backpatch_exact.
    reference decoder - in the FINAL message, after its RDLENGTH slot has been back-patched
    (Write_rr.v); sections, question and header are assembled (Write_msg.v), the message is shown to be
    in the supported subset, and C04_complete + C04_sound transfer the result to the parser.
-   _partial: non-canonical name text (trailing dot, \DDD for printable octets) and the statement that
-   re-serialising the parsed record yields the same octets are not covered. *)
+   The parsed record equals the written one even up to Wnorm (only: a text field held as STR or NAME,
+   an absent or an empty binary value - what the writer cannot tell apart, Wire/Write_weq.v), hence
+   serialising it again yields the SAME OCTETS.
+   _partial: non-canonical name text (trailing dot, \DDD for printable octets) is not covered. *)
 Theorem C03_roundtrip_partial : forall d bs,
   msg_wf d -> dns_write d = Ok bs ->
-  Z.of_nat (length bs) <= 65535 /\ exists d', dns_parse bs 0 = Ok d' /\ norm_parsed d' = norm_parsed d.
+  Z.of_nat (length bs) <= 65535 /\
+  exists d', dns_parse bs 0 = Ok d' /\ norm_parsed d' = norm_parsed d /\ Wnorm.wnorm_parsed d' = Wnorm.wnorm_parsed d /\
+             dns_write d' = Ok bs.
 Proof. exact roundtrip_fixed. Qed.
 Print Assumptions C03_roundtrip_partial.
